@@ -1360,6 +1360,10 @@ def rule_posonly(ctx, floor=3):
             classes, desc, doms = cc
             if not any(any(t == 'pos_only' for t, v in k) for k in classes):
                 continue
+            # round 9: a counter of the parameters that are NOT positional-only (every class has `not pos_only`) measures the keyword-name table, not the distance
+            # between the two index spaces; its value wherever it reaches the parser call is decided by C24-POSRANGE (s9C24: clamp limit / values window)
+            if all(('pos_only', False) in k for k in classes):
+                continue
             if not emits_parse and not re.search(r'pykwdlist_cname\}\[[^\]]*\{%s\}' % re.escape(name), src.replace(' ', '')) and not re.search(r'pykwdlist_cname[^\n]*%s' % re.escape(name), src):
                 continue
             key = 'Nodes.DefNodeWrapper.%s:offset:%s' % (fname, name)
